@@ -634,6 +634,31 @@ func runPSI(line []byte, rec *recorder) {
 			}
 			rec.ev(M{"ev": "wvec", "class": k + "-writer", "ptr": ptr, "secs": vals, "wb": ints(wb), "wn": n, "werr": errStr(err), "nsec": len(secs)})
 		}
+		for i := 0; i < 3; i++ { // a PAT whose CRC_32 is 0x00000000: its last program entry equals the checksum of what precedes it
+			m := randTable(r, "pat", 1+r.intn(3), 0)
+			m.PAT.Programs = append(m.PAT.Programs, &astits.PATProgram{})
+			last := m.PAT.Programs[len(m.PAT.Programs)-1]
+			for ext := 0; ext < 4096; ext++ {
+				m.Ext = ext
+				m.PAT.TransportStreamID = uint16(ext)
+				sec := twinSection(m)
+				c := crc32mpeg(sec[:len(sec)-8])
+				if c>>13&7 == 7 { // the three reserved bits of the entry are ones
+					last.ProgramNumber, last.ProgramMapID = uint16(c>>16), uint16(c&0x1fff)
+					break
+				}
+			}
+			sec := &astits.PSISection{Header: &astits.PSISectionHeader{TableID: 0, SectionSyntaxIndicator: m.SSI, PrivateBit: m.Priv, SectionLength: 1},
+				Syntax: &astits.PSISectionSyntax{Header: &astits.PSISectionSyntaxHeader{TableIDExtension: uint16(m.Ext), VersionNumber: uint8(m.Ver), CurrentNextIndicator: m.CNI,
+					SectionNumber: uint8(m.SN), LastSectionNumber: uint8(m.LSN)}, Data: &astits.PSISectionSyntaxData{PAT: m.PAT}}}
+			var wb []byte
+			var n int
+			var err error
+			if pn := safeCall(func() { wb, n, err = astits.VerifWritePSIData(&astits.PSIData{Sections: []*astits.PSISection{sec}}) }); pn != nil {
+				err = fmt.Errorf("panic %v", pn)
+			}
+			rec.ev(M{"ev": "wvec", "class": "pat-writer-crc-zero", "ptr": 0, "secs": []M{encTableModel(m)}, "wb": ints(wb), "wn": n, "werr": errStr(err), "nsec": 1})
+		}
 	case "muxer": // the PAT and PMT the Muxer itself emits
 		for i := 0; i < sc.N; i++ {
 			w := &recWriter{}
@@ -661,6 +686,22 @@ func runPSI(line []byte, rec *recorder) {
 				continue
 			}
 			pmt.PCRPID = pmt.ElementaryStreams[r.intn(len(pmt.ElementaryStreams))].ElementaryPID
+			if i%4 == 3 && budget >= 11 {
+				// a section whose CRC_32 is 0x00000000: its last four data bytes (the format identifier of a closing registration
+				// descriptor) equal the checksum of everything before them (residue property; as legal a checksum as any other)
+				reg := &astits.Descriptor{Tag: astits.DescriptorTagRegistration, Length: 4, Registration: &astits.DescriptorRegistration{}}
+				es := astits.PMTElementaryStream{ElementaryPID: 0x1f0, StreamType: astits.StreamTypePrivateData, ElementaryStreamDescriptors: []*astits.Descriptor{reg}}
+				pmt.ElementaryStreams = append(pmt.ElementaryStreams, &es)
+				for ver := 0; ver < 2; ver++ { // the version the first emission will carry is not known for sure: cover 0 and 1
+					sec := twinSection(&tableModel{K: "pmt", TID: 2, SSI: true, CNI: true, Ext: 1, Ver: ver, PMT: pmt})
+					if ver == 0 {
+						reg.Registration.FormatIdentifier = crc32mpeg(sec[:len(sec)-8])
+					}
+				}
+				if err := mx.AddElementaryStream(es); err != nil {
+					fatal("add: %v", err)
+				}
+			}
 			mx.SetPCRPID(pmt.PCRPID)
 			for rep := 0; rep < 2; rep++ {
 				before := w.buf.Len()
